@@ -156,10 +156,10 @@ Section TP.
       exists P', q'. split; [exact Hf|]. split; [exact Hi'|].
       pose proof (slack_replace P s sp sp' (ip_sorted _ _ _ _ _ Hi) Hgs Hlen_n Hlen_le) as Hsl. fold P1 in Hsl.
       assert (Hq1 : (length q1 + slack P1 <= length queue + slack P)%nat).
-      { unfold q1. destruct changed eqn:Hch.
-        - unfold changed in Hch. apply negb_true_iff, Nat.eqb_neq in Hch. rewrite app_length. cbn [length]. lia.
-        - lia. }
-      lia.
+      { unfold q1, P1. destruct changed eqn:Hch.
+        - unfold changed in Hch. apply negb_true_iff, Nat.eqb_neq in Hch. rewrite app_length. cbn [length]. unfold nset in *. lia.
+        - unfold nset in *. lia. }
+      unfold nset in *. lia.
   Qed.
 
   Lemma loop_correct fuel : forall queue P,
